@@ -216,6 +216,8 @@ SHAPE_VALUES = {
     "listOfLeafObj": [{"v": 1}, {"v": 2}], "listOfEmptyObj": [{}], "listOfNull": [None], "anyElementObj": {"qname": "q", "text": "t", "tail": None, "children": [], "attributes": {}},
     "derivedObj": {"qname": "q", "value": 5, "type": None}, "strDict": {"a": "1", "b": "2"}, "nestedList3": [[[1]]],
     "h0Obj": {"a": "p"}, "h1Obj": {"a": "p", "b": "q"}, "h2Obj": {"a": "p", "b": "q", "c": "r"}, "h3Obj": {"a": "p", "b": "q", "c": "r", "d": "s"},
+    "derivedTypedObj": {"qname": "leaf", "value": {"v": 1}, "type": "SLeaf"},
+    "listOfDerived": [{"qname": "leaf", "value": {"v": 1}, "type": "SLeaf"}, {"qname": "n", "value": 5, "type": None}],
     "clarkStr": "{urn:q}n", "clarkBrokenStr": "{urn:q", "boolList": [True, False], "intBoolList": [5, True, 0, False],
     "listOfHObjs": [{"a": "p", "b": "q", "c": "r"}, {"a": "p"}, {"a": "p", "b": "q", "c": "r", "d": "s"}, {"a": "p", "b": "q"}],
 }
@@ -255,3 +257,19 @@ class NLeaf(NMid):
     extra: Optional[str] = field(default=None, metadata={"type": "Element"})
     name2: Optional[str] = field(default=None, metadata={"type": "Element", "namespace": "urn:own"})
 
+
+
+@dataclass
+class NPlain(NMid):
+    """NO Meta of its own: the Meta class is not inherited (docs/models/classes.md), so this class is called NPlain and
+    has no namespace, while the fields it inherits stay where their classes declared them"""
+
+    more: Optional[str] = field(default=None, metadata={"type": "Element"})
+
+
+@dataclass
+class NHolder:
+    class Meta:
+        namespace = "urn:base"
+
+    item: Optional[NBase] = field(default=None, metadata={"type": "Element"})
